@@ -119,8 +119,20 @@ def run(run):
             if not have:
                 run.violations.append((f"{tag}/{name}/unmasked", _w(run, tag, f"{name} does not depend on any blinder")))
                 continue
-            shifted = xe.subst(ctx, [root], {have[0]: ctx.var(have[0]) + 1})[0]
-            nonvanishing(run, f"{tag}/{name}/depends-on-randomness", ctx, shifted - root)
+            # the coefficient of (the first power of) some blinder is not the zero polynomial;
+            # take the blinder whose coefficient term is smallest
+            best = None
+            for bname in have:
+                c1 = coeffs_in(ctx, root, bname).get(1)
+                if c1 is None:
+                    continue
+                sz = len(smt.topo([c1]))
+                if best is None or sz < best[0]:
+                    best = (sz, bname, c1)
+            if best is None:
+                run.violations.append((f"{tag}/{name}/unmasked", _w(run, tag, f"{name}: no linear blinder term")))
+                continue
+            nonvanishing(run, f"{tag}/{name}/depends-on-randomness/{best[1]}", ctx, best[2])
         run.extra["outputs_checked"] = run.extra.get("outputs_checked", 0) + len(comm) + 8
         if o.get("verified") != "Ok(())":
             run.notes.append(f"{tag}: real verifier on the symbolic proof: {o.get('verified')}")
